@@ -14,7 +14,7 @@ ASSUMPTIONS = []
 TRUSTED = ["S-stch generators"]
 
 
-def stream_public_stitch(ctx):
+def stream_public_stitch(ctx, count=None):
     """syndiffix.stitch(df_left, df_right, shared): oracle only (cells carry their source row through unique values per column)"""
     import syndiffix.synthesizer as S
     from syndiffix import stitch
@@ -24,7 +24,7 @@ def stream_public_stitch(ctx):
     saved = S._get_default_salt
     S._get_default_salt = lambda: b"12345678"
     try:
-        for _ in range(ctx.scale(10, 80)):
+        for _ in range(count or ctx.scale(10, 80)):
             L, Rn = R.choice([(1, 1), (1, 6), (8, 8), (20, 25), (40, 12), (5, 60)])
             nshared = R.choice([1, 2])
             sh = [f"s{i}" for i in range(nshared)]
@@ -45,11 +45,18 @@ def stream_public_stitch(ctx):
                 dr.update({c: list(rnum[c]) for c in rp})
             else:
                 dr.update({c: [f"{c}-{i}" for i in range(Rn)] for c in rp})
+            nulls = 0
+            if not numeric and R.random() < 0.5:      # a few missing values in the shared columns (few enough for a split on that column to be accepted)
+                for side, cnt in ((dl, L), (dr, Rn)):
+                    for c in sh:
+                        if kinds[c] != "int" and cnt >= 8 and R.random() < 0.7:
+                            for i in R.sample(range(cnt), R.randint(1, 2)):
+                                side[c][i] = None; nulls += 1
             cl = list(dl); R.shuffle(cl); cr = list(dr); R.shuffle(cr)
             dfl, dfr = pd.DataFrame(dl)[cl], pd.DataFrame(dr)[cr]
             shared = R.random() < 0.6
             out = stitch(dfl, dfr, shared=shared)
-            case = {"L": L, "R": Rn, "shared": shared, "left_columns": cl, "right_columns": cr, "all_numeric": numeric}
+            case = {"L": L, "R": Rn, "shared": shared, "left_columns": cl, "right_columns": cr, "all_numeric": numeric, "missing_shared_values": nulls}
             St.count((dfl.values.tobytes() if False else repr(dl), repr(dr), shared, tuple(cl), tuple(cr)), L >= 2 and Rn >= 2, dict(case, result_rows=len(out)))
             if sorted(out.columns) != sorted(set(cl) | set(cr)):
                 ctx.oracle_fail(f"stitch(): columns {list(out.columns)} are not the union {sorted(set(cl)|set(cr))}", case, "api-columns"); continue
@@ -81,7 +88,8 @@ def stream_public_stitch(ctx):
                 else:
                     for c in sh:
                         cands = ([dfl[c].iloc[li]] if li is not None else list(dfl[c])) + ([dfr[c].iloc[ri]] if ri is not None else list(dfr[c]))
-                        if row[c] not in cands:
+                        nn = lambda x: "<null>" if (x is None or (isinstance(x, float) and x != x) or x is pd.NaT) else x
+                        if nn(row[c]) not in [nn(x) for x in cands]:
                             ctx.oracle_fail(f"stitch(): result row {k} shared cell {row[c]!r} of {c} is from neither of its two source rows", case, "api-real-rows"); break
                     continue
                 break
@@ -105,5 +113,5 @@ def run(ctx, built):
 
 def search(ctx, seeds):
     sub = Ctx(ctx.pid, "quick", ctx.seed + 141650939)
-    SS.stream_stitch(sub, False, 600); stream_public_stitch(sub)
+    SS.stream_stitch(sub, False, 600); stream_public_stitch(sub, 80)
     ctx.oracle_failures += sub.oracle_failures
